@@ -13,6 +13,10 @@ def genCfg : Cfg where
   extRet := C06.extRet
   topSkip := C06.topSkip
 
+/-- the accessor `visit` iterates, as read from the source on this run (anything unknown counts as the build subset, so
+that the facts theorem fails rather than silently assuming the full relation) -/
+def genAccessor : Accessor := if C06.loopMethod == "Dependencies" then .all else .build
+
 /-- which sets persist in the detector between two `Check()` calls, as read from the source on this run -/
 def genPersist : Persist := ⟨C06.persistPost, C06.persistPre⟩
 
